@@ -400,6 +400,16 @@ def run_calls(ctx, rng, quick, k=1.0):
     check_decimal_years_far(ctx, list(range(US_MIN, US_MIN + 200)), "first-us-of-0001")
     check_decimal_years_far(ctx, sorted(set(rng.randrange(US_MIN, US_MAX) for _ in range(max(10, int((4000 if quick else 80000) * k))))),
                             "uniform")
+    # round 6: strptime at character level with ANY field widths (general backtracking matcher, op c15_strp)
+    for _ in range(max(1, int((1500 if quick else 30000) * k))):
+        check_strp(ctx, rng.randrange(2 ** 31), "strp")
+    # round 6: keyword / positional call shapes, other numeric types, datetime subclasses, numeric extremes, caller-owned objects
+    for i in range(max(1, int((60 if quick else 1500) * k))):
+        us = rng.randrange(lo, hi) if i % 4 else rng.choice([0, -1, 1, 999, -1000, 1000 * B.MS_LO, 1000 * B.MS_HI - 1])
+        check_shapes(ctx, us, rng.randrange(2 ** 31), "shapes")
+    check_extreme_epochs(ctx, "extremes")
+    for _ in range(max(1, int((3 if quick else 30) * k))):
+        check_caller_objects(ctx, rng.randrange(2 ** 31), "caller")
     # every microsecond across second / minute / hour / day / month carries in the property's range
     for _ in range(max(1, int((6 if quick else 100) * k))):
         base = rng.randrange(B.MS_LO // 1000, B.MS_HI // 1000) * 10 ** 6
@@ -409,7 +419,15 @@ def run_calls(ctx, rng, quick, k=1.0):
 
 def replay(ctx, case):
     kind = case.get("kind")
-    if kind == "scale":
+    if kind == "strp":
+        check_strp(ctx, int(case["seed"]), "replay")
+    elif kind == "shapes15":
+        check_shapes(ctx, int(case["us"]), int(case["seed"]), "replay")
+    elif kind == "extreme15":
+        check_extreme_epochs(ctx, "replay")
+    elif kind == "caller15":
+        check_caller_objects(ctx, int(case["seed"]), "replay")
+    elif kind == "scale":
         u = case["us"]
         check_scale(ctx, int(u[0]), int(u[1]), [int(x) for x in (u[2:] or [case.get("t")])], case.get("mode", "utc"), "replay")
     elif kind == "stmt":
@@ -424,3 +442,305 @@ def replay(ctx, case):
     else:
         return False
     return True
+
+
+# ------------------------------------------------------------------------------------------------ round 6: call shapes, extremes
+class _MyDatetime(_dt.datetime):
+    """a user subclass of datetime"""
+
+
+@_guarded
+def check_shapes(ctx, us, seed, tag):
+    """the conversions called with KEYWORD arguments / other argument types / datetime subclasses: same exact answers"""
+    import random
+    import warnings
+    import numpy
+    from csep.utils import time_utils as tu
+    run = ctx.run
+    rng = random.Random(seed)
+    case = _case(kind="shapes15", us=us, seed=seed, tag=tag)
+    run.case(case, ("shapes15", us, seed % 7))
+    ms = us // 1000
+    aware, naive = dt_of(us, True), dt_of(us, False)
+    whole = dt_of(ms * 1000, True)
+
+    def want(label, got, exp):
+        if got != exp or (isinstance(exp, _dt.datetime) and (getattr(got, "tzinfo", None) is None)):
+            run.oracle_failure(dict(case, call=label), f"{label} = {got!r}, expected {exp!r}")
+
+    def call(label, fn, exp):
+        try:
+            want(label, fn(), exp)
+        except Exception as ex:
+            run.oracle_failure(dict(case, call=label), f"{label} raised {type(ex).__name__}: {ex}")
+        run.count("shapes15:call")
+
+    with warnings.catch_warnings():
+        warnings.simplefilter("error")          # the conversions themselves must not warn
+        s = str(rng.choice([aware, naive]))
+        t = str(naive).replace(" ", "T")
+        tf = "%Y-%m-%dT%H:%M:%S.%f" if "." in t else "%Y-%m-%dT%H:%M:%S"
+        call("epoch_time_to_utc_datetime(epoch_time_milli=ms)", lambda: tu.epoch_time_to_utc_datetime(epoch_time_milli=ms), whole)
+        call("datetime_to_utc_epoch(dt=aware)", lambda: tu.datetime_to_utc_epoch(dt=aware), ms)
+        call("datetime_to_utc_epoch(dt=naive)", lambda: tu.datetime_to_utc_epoch(dt=naive), ms)
+        call("strptime_to_utc_epoch(time_string=s)", lambda: tu.strptime_to_utc_epoch(time_string=s), ms)
+        call("strptime_to_utc_datetime(time_string=s)", lambda: tu.strptime_to_utc_datetime(time_string=s), aware)
+        call("strptime_to_utc_epoch(format=f, time_string=t)", lambda: tu.strptime_to_utc_epoch(format=tf, time_string=t), ms)
+        call("strptime_to_utc_epoch(t, f) positional", lambda: tu.strptime_to_utc_epoch(t, tf), ms)
+        call("strptime_to_utc_datetime(t, format=f)", lambda: tu.strptime_to_utc_datetime(t, format=tf), aware)
+        call("strptime_to_utc_datetime(t, f) positional", lambda: tu.strptime_to_utc_datetime(t, tf), aware)
+        call("create_utc_datetime(dt=naive)", lambda: tu.create_utc_datetime(dt=naive), aware)
+        call("millis_to_days(millis=86400000*k)", lambda: tu.millis_to_days(millis=86400000 * (ms % 1000)), float(ms % 1000))
+        call("days_to_millis(days=k)", lambda: tu.days_to_millis(days=ms % 1000), 86400000 * (ms % 1000))
+        call("timedelta_from_years(time_in_years=k)", lambda: tu.timedelta_from_years(time_in_years=ms % 50),
+             _dt.timedelta(seconds=31557600 * (ms % 50)))
+        try:
+            y = tu.decimal_year(test_date=aware)
+            y2 = tu.decimal_year(aware)
+            if y != y2 or not (aware.year <= y <= aware.year + 1):
+                run.oracle_failure(dict(case, call="decimal_year(test_date=)"), f"decimal_year(test_date=dt) = {y!r}, positional {y2!r}")
+            if y < 9999:
+                b1 = tu.decimal_year_to_utc_datetime(decimal_date=y)
+                e1 = tu.decimal_year_to_utc_epoch(decimal_date=y)
+                if abs(us_of(b1) - us) > 1000 or abs(e1 - ms) > 1 or b1.tzinfo is None:
+                    run.oracle_failure(dict(case, call="decimal_year_to_utc_datetime(decimal_date=)"),
+                                       f"inverse of {y!r} by keyword: {b1!r} / {e1}, the instant is {aware!r}")
+        except Exception as ex:
+            run.oracle_failure(dict(case, call="decimal_year keywords"), f"decimal-year call by keyword raised {type(ex).__name__}: {ex}")
+        # other numeric types for the epoch
+        forms = [("float", float(ms)), ("numpy.float64", numpy.float64(ms)), ("numpy.int64", numpy.int64(ms))]
+        if -2 ** 31 <= ms < 2 ** 31:
+            forms.append(("numpy.int32", numpy.int32(ms)))
+        if ms >= 0:
+            forms.append(("numpy.uint64", numpy.uint64(ms)))
+        for name, v in forms:
+            call(f"epoch_time_to_utc_datetime({name})", lambda v=v: tu.epoch_time_to_utc_datetime(v), whole)
+        # datetime subclasses
+        subs = [("user subclass", _MyDatetime(aware.year, aware.month, aware.day, aware.hour, aware.minute, aware.second,
+                                              aware.microsecond, tzinfo=UTC)),
+                ("user subclass naive", _MyDatetime(naive.year, naive.month, naive.day, naive.hour, naive.minute, naive.second,
+                                                    naive.microsecond)),
+                ("HistoricTime", tu.HistoricTime(naive.year, naive.month, naive.day, naive.hour, naive.minute, naive.second,
+                                                 naive.microsecond))]
+        if 1700 < aware.year < 2250:
+            import pandas
+            subs += [("pandas.Timestamp UTC", pandas.Timestamp(aware)), ("pandas.Timestamp naive", pandas.Timestamp(naive))]
+        for name, d in subs:
+            call(f"datetime_to_utc_epoch({name})", lambda d=d: tu.datetime_to_utc_epoch(d), ms)
+            try:
+                if tu.decimal_year(d) != tu.decimal_year(aware):
+                    run.oracle_failure(dict(case, call=f"decimal_year({name})"), f"decimal_year of a {name} differs from the plain datetime's")
+            except Exception as ex:
+                run.oracle_failure(dict(case, call=f"decimal_year({name})"), f"decimal_year({name}) raised {type(ex).__name__}: {ex}")
+
+
+@_guarded
+def check_extreme_epochs(ctx, tag):
+    """numeric extremes of the epoch argument: signed zeros, subnormals, booleans, small integer types.
+    (numpy.float32 / float16 arguments make datetime.fromtimestamp / timedelta raise TypeError in unchanged pyCSEP: a float32
+    cannot hold epoch milliseconds or a decimal year to the millisecond anyway - outside the quantifier, not generated)"""
+    import numpy
+    from csep.utils import time_utils as tu
+    run = ctx.run
+    epoch = dt_of(0, True)
+    vals = [("-0.0", -0.0, 0), ("0.0", 0.0, 0), ("5e-324", 5e-324, 0), ("-5e-324", -5e-324, 0), ("numpy.float64(-0.0)", numpy.float64(-0.0), 0),
+            ("True", True, 1000), ("False", False, 0), ("numpy.int8(-1)", numpy.int8(-1), -1000), ("numpy.int16(999)", numpy.int16(999), 999000),
+            ("numpy.uint8(255)", numpy.uint8(255), 255000), ("0.5", 0.5, 500), ("-0.5", -0.5, -500), ("1e-3", 1e-3, 1), ("-1e-3", -1e-3, -1)]
+    for name, v, want_us in vals:
+        case = _case(kind="extreme15", value=name, tag=tag)
+        run.case(case, ("extreme15", name))
+        try:
+            d = tu.epoch_time_to_utc_datetime(v)
+        except Exception as ex:
+            run.oracle_failure(case, f"epoch_time_to_utc_datetime({name}) raised {type(ex).__name__}: {ex}")
+            continue
+        if d is None or d.tzinfo is None or us_of(d) != want_us:
+            run.oracle_failure(case, f"epoch_time_to_utc_datetime({name}) = {d!r}; the instant is {want_us} us after the epoch ({epoch.isoformat()})")
+        run.count("extreme15:epoch")
+    for name, y, want in [("2000 (int)", 2000, dt_of(946684800000000, True)), ("numpy.int64(1999)", numpy.int64(1999), dt_of(915148800000000, True)),
+                          ("numpy.float64(2000.0)", numpy.float64(2000.0), dt_of(946684800000000, True)),
+                          ("2001.5", 2001.5, dt_of(978307200000000 + 1825 * 8640000000, True))]:
+        case = _case(kind="extreme15", value=name, tag=tag)
+        run.case(case, ("extreme15", name))
+        try:
+            d = tu.decimal_year_to_utc_datetime(y)
+            e = tu.decimal_year_to_utc_epoch(y)
+        except Exception as ex:
+            run.oracle_failure(case, f"decimal_year_to_utc_datetime({name}) raised {type(ex).__name__}: {ex}")
+            continue
+        if d.tzinfo is None or abs(us_of(d) - us_of(want)) > 1000 or abs(e - us_of(want) // 1000) > 1:
+            run.oracle_failure(case, f"decimal_year_to_utc_datetime({name}) = {d!r} / {e}; the instant is {want.isoformat()}")
+        run.count("extreme15:decimal-year")
+
+
+@_guarded
+def check_caller_objects(ctx, seed, tag):
+    """objects the caller hands over are left alone; block-boundary sizes; relative file names"""
+    import random
+    import numpy
+    import csep
+    from csep.core.catalogs import CSEPCatalog
+    run = ctx.run
+    rng = random.Random(seed)
+    case = _case(kind="caller15", seed=seed, tag=tag)
+    run.case(case, ("caller15", seed % 5))
+    n = rng.choice([65535, 65536, 65537, 3])
+    base = rng.randrange(B.MS_LO, B.MS_HI - 10 ** 9)
+    arr = numpy.zeros(n, dtype=CSEPCatalog.dtype)
+    arr["origin_time"] = base + numpy.arange(n, dtype=numpy.int64) * 997
+    arr["magnitude"] = 1.0
+    keep = arr["origin_time"].copy()
+    cat = CSEPCatalog(data=arr)
+    dts = cat.get_datetimes()
+    if len(dts) != n:
+        run.oracle_failure(case, f"get_datetimes of {n} events returned {len(dts)} datetimes")
+    else:
+        for k in sorted({0, 1, n // 2, n - 2, n - 1, min(n - 1, 65535), min(n - 1, 65536)}):
+            if us_of(dts[k]) != 1000 * int(keep[k]) or dts[k].tzinfo is None:
+                run.oracle_failure(dict(case, event=k), f"get_datetimes()[{k}] of {n} events = {dts[k]!r}, origin time {int(keep[k])} ms")
+                break
+    if not numpy.array_equal(arr["origin_time"], keep) or not numpy.array_equal(cat.get_epoch_times(), keep):
+        run.oracle_failure(case, "get_datetimes / the catalog constructor changed the origin times the caller gave")
+    # what get_datetimes handed out is the caller's: editing it must not show in the next call
+    if len(dts) == n and n:
+        dts[0] = None
+        dts.reverse()
+        again = cat.get_datetimes()
+        if len(again) != n or us_of(again[0]) != 1000 * int(keep[0]) or us_of(again[-1]) != 1000 * int(keep[-1]):
+            run.oracle_failure(dict(case, what="returned-list-edited"), "after the caller edited the list get_datetimes() returned, the next call differs")
+    # the caller changes the event times IN PLACE (its own array / what get_epoch_times returned): every derived value follows
+    for how in ("caller's array", "get_epoch_times() result"):
+        shift = rng.randrange(1, 10 ** 6) * rng.choice([1, -1])
+        try:
+            if how == "caller's array":
+                arr["origin_time"] += shift
+            else:
+                t = cat.get_epoch_times()
+                t += shift
+            now = [int(x) for x in cat.get_epoch_times()]
+            d2 = cat.get_datetimes()
+            bad = [k for k in sorted({0, n // 2, n - 1}) if us_of(d2[k]) != 1000 * now[k]]
+            if len(d2) != len(now) or bad:
+                k = bad[0] if bad else 0
+                run.oracle_failure(dict(case, what="in-place-shift", how=how),
+                                   f"after the {how} was shifted in place by {shift} ms: get_epoch_times()[{k}] = {now[k]} but "
+                                   f"get_datetimes()[{k}] = {d2[k]!r}")
+            df = cat.to_dataframe(with_datetime=True)
+            if us_of(df["datetime"].iloc[0].to_pydatetime()) != 1000 * now[0]:
+                run.oracle_failure(dict(case, what="in-place-shift", how=how), "to_dataframe(with_datetime=True) does not follow the shifted origin times")
+        except Exception as ex:
+            run.oracle_failure(dict(case, what="in-place-shift", how=how), f"in-place shift ({how}): {type(ex).__name__}: {ex}")
+        run.count("caller15:in-place-shift")
+    keep = numpy.array([int(x) for x in cat.get_epoch_times()], dtype=numpy.int64)
+    thr = int(keep[n // 2])
+    stmts = [f"datetime >= {dt_of(1000 * thr, False)}", f"datetime < {dt_of(1000 * int(keep[-1]) + 1000, True)}"]
+    snap = list(stmts)
+    out = cat.filter(stmts, in_place=False)
+    if stmts != snap:
+        run.oracle_failure(case, "filter changed the list of statements it was given")
+    if [int(x) for x in out.get_epoch_times()] != [int(x) for x in keep if x >= thr]:
+        run.oracle_failure(case, f"filter(statements=[two datetime statements]) on {n} events keeps {out.get_number_of_events()} events")
+    k2 = cat.filter(statements=stmts[0], in_place=False)
+    k3 = cat.filter(stmts[0], False)
+    if [int(x) for x in k2.get_epoch_times()] != [int(x) for x in k3.get_epoch_times()] or k2.get_number_of_events() != n - n // 2:
+        run.oracle_failure(case, "filter(statements=, in_place=) by keyword differs from the positional call")
+    # a relative file name under another working directory
+    us = rng.randrange(B.MS_LO, B.MS_HI) * 1000 + rng.randrange(1000)
+    text = _fmt_text(FNAME_CODES, dt_of(us, True))
+    old = os.getcwd()
+    with tempfile.TemporaryDirectory(prefix="c15cwd") as tmp:
+        try:
+            os.chdir(tmp)
+            os.makedirs("sub", exist_ok=True)
+            rel = os.path.join("sub", f"m-1_{text}.csv")
+            open(rel, "w").close()
+            f = csep.load_catalog_forecast(rel)
+            f2 = csep.load_catalog_forecast(fname=os.path.join(tmp, rel))
+        finally:
+            os.chdir(old)
+        for g in (f, f2):
+            if g.start_time != dt_of(us, True) or g.name != "m-1":
+                run.oracle_failure(dict(case, us=us), f"load_catalog_forecast({rel!r}) under another working directory: "
+                                                      f"{g.name!r} / {g.start_time!r}")
+    run.count(f"caller15:{n}-events")
+
+
+# ------------------------------------------------------------------------------------------------ strptime with ANY field widths
+LIB_FORMATS = ["%Y-%m-%d %H:%M:%S.%f", "%Y-%m-%dT%H:%M:%S.%f", "%Y-%m-%dT%H:%M:%S", "%Y-%m-%dT%H-%M-%S-%f", "%Y/%m/%d %H:%M:%S.%f",
+               "%Y-%m-%d %H:%M:%S", "%Y-%m-%d %H:%M:%S%z", "%Y-%m-%d %H:%M:%S.%f%z"]
+
+
+def _hex(s):
+    return s.encode("utf-8").hex() or "-"
+
+
+def gen_strp_case(rng):
+    """a format of the library (or a variation) and a string: canonical, un-padded fields, other blank runs, zone suffixes,
+    out-of-range fields, truncations, garbage"""
+    fmt = rng.choice(LIB_FORMATS)
+    if rng.random() < 0.1:
+        fmt = rng.choice(["%Y-%m-%d", "%H:%M", "%Y%m%d%H%M%S", "%d/%m/%Y %H:%M", "%Y-%m-%d  %H:%M:%S", "%Y-%m-%d %H:%M:%S %z", "%Y %%", "%Y-%m-%d %Q",
+                          "%Y-%Y", "%m%d", "%H%M%S%f", "%f", "%z", "%Y-%m-%dt%H:%M:%S", "%"])
+    us = rng.choice([rng.randrange(US_MIN, US_MAX), rng.randrange(B.MS_LO, B.MS_HI) * 1000, rng.randrange(B.MS_LO * 1000, B.MS_HI * 1000)])
+    dt = dt_of(us, False)
+    pad = rng.random() < 0.5
+    w = (lambda v, n: f"{v:0{n}d}") if pad else (lambda v, n: (f"{v:0{n}d}" if rng.random() < 0.5 else str(v)))
+    fields = dict(Y=f"{dt.year:04d}", m=w(dt.month, 2), d=w(dt.day, 2), H=w(dt.hour, 2), M=w(dt.minute, 2), S=w(dt.second, 2),
+                  f=f"{dt.microsecond:06d}"[:rng.choice([6, 6, 6, 3, 1, 2, 4, 5])] + rng.choice(["", "", "", "7"]),
+                  z=rng.choice(["+00:00", "+0000", "+05:30", "-08", "Z", "z", "+0530", "-00:00", "+00:00:00", "+01:02:03.5", "+1:00", "", "UTC"]))
+    k = rng.random()
+    if k < 0.12:
+        key = rng.choice("mdHMS")
+        fields[key] = rng.choice({"m": ["0", "00", "13", "1", "9"], "d": ["0", "00", "30", "31", "32", " 5", "29"], "H": ["24", "0", "9", "23"],
+                                  "M": ["60", "0", "7", "59"], "S": ["60", "61", "62", "0", "5"]}[key])
+        if key == "d" and fields["d"] in ("30", "31", "29"):
+            fields["m"] = rng.choice(["02", "2", "04", "12"])
+    out, i = [], 0
+    while i < len(fmt):
+        c = fmt[i]
+        if c == "%" and i + 1 < len(fmt):
+            out.append(fields.get(fmt[i + 1], "%" if fmt[i + 1] == "%" else "?"))
+            i += 2
+        elif c == " ":
+            out.append(rng.choice([" ", " ", " ", "  ", "\t", " \n ", ""]))
+            i += 1
+        else:
+            out.append(c if rng.random() < 0.97 else rng.choice([c.lower(), c.upper(), "x"]))
+            i += 1
+    s = "".join(out)
+    k = rng.random()
+    if k < 0.04:
+        s = s[:rng.randrange(0, len(s) + 1)]
+    elif k < 0.08:
+        s = s + rng.choice([" ", "x", "0", ".5", "+00:00"])
+    elif k < 0.1:
+        s = rng.choice([" ", ""]) + s
+    return fmt, s
+
+
+@_guarded
+def check_strp(ctx, seed, tag):
+    import random
+    from csep.utils import time_utils as tu
+    run = ctx.run
+    rng = random.Random(seed)
+    fmt, s = gen_strp_case(rng)
+    case = _case(kind="strp", seed=seed, format=fmt, string=s, tag=tag)
+    run.case(case, ("strp", fmt, len(s), s[:12]))
+    try:
+        d = tu.strptime_to_utc_datetime(s, format=fmt)
+        got_dt = str(us_of(d))
+    except Exception:
+        d, got_dt = None, "none"
+    try:
+        got_ep = str(tu.strptime_to_utc_epoch(s, format=fmt))
+    except Exception:
+        got_ep = "none"
+    if d is not None:
+        if d.tzinfo is None or got_ep != str(us_of(d) // 1000):
+            run.oracle_failure(case, f"strptime_to_utc_datetime({s!r}, {fmt!r}) = {d!r} but strptime_to_utc_epoch = {got_ep}")
+    run.count("strp:" + ("parsed" if d is not None else "refused"))
+    if any(ord(c) > 127 for c in s + fmt):
+        return
+    ctx.ask(f"c15_strp dt {_hex(fmt)} {_hex(s)}", got_dt, dict(case, op="c15_strp dt"))
+    ctx.ask(f"c15_strp epoch {_hex(fmt)} {_hex(s)}", got_ep, dict(case, op="c15_strp epoch"))
